@@ -21,6 +21,10 @@ CORR_ONLY = ["accuracy of the Boost rules (trapezoidal, gauss<30>, gauss_kronrod
              "(C16 proves the Spherical_Coordinates algebra)"]
 ASSUMPTIONS = ["the model's 1-D rule is the exact 17-point Newton-Cotes rule (exact to degree 17): the model value for a polynomial "
                "integrand is the exact iterated integral through the coded wrappers (validated by the driver self-test)",
+               "'1e-9 relative' is judged relative to |I| (the exact integral) for Gauss-Legendre, Gauss-Kronrod, Tanh-Sinh, Gauss-Legendre_2 and "
+               "Adaptive-Simpson, plus the rounding floor 256 * 2^-53 * (integral of |f| resp. sum of |terms|); '1e-6' of Trapezoidal is judged "
+               "relative to the integral of |f|: relative to |I| it fails for damped oscillations with cancelling I (audit probe: 600 of 3000 "
+               "runs, worst 3.8e-4) - an interpretation of 'relative', not a tolerance",
                "Trapezoidal: Boost stops after 2048 panels, the leading Euler-Maclaurin term bounds the error by 0.89e-6 * integral |f| "
                "on the whole damped-oscillation domain (<= 2 periods, damping <= e^-2), so 1e-6 is met with ~10% margin"]
 TRUSTED = ["mpmath.quad (30 digits) as reference for the non-polynomial families",
@@ -109,7 +113,7 @@ def _gl_rule(n):
 
 
 def _gl_reaches(f, a, b, n, frac=Fraction(1, 10)):
-    """does the exact n-point rule integrate family member f over [a,b] within frac * 1e-9 * integral |f| ?"""
+    """does the exact n-point rule integrate family member f over [a,b] within frac * 1e-9 * |I| ?"""
     if mpmath is None:
         return False
     xs, ws = _gl_rule(n)
@@ -118,7 +122,7 @@ def _gl_reaches(f, a, b, n, frac=Fraction(1, 10)):
     mid, h = mpmath.mpf(lo + hi) / 2, mpmath.mpf(hi - lo) / 2
     q = h * sum(w * g(mid + h * x) for x, w in zip(xs, ws))
     I, A, S = _fam_ref(f, lo, hi)
-    return abs(q - I) <= float(frac) * 1e-9 * A
+    return abs(q - I) <= float(frac) * 1e-9 * abs(I)
 
 
 def _famstr(f):
@@ -209,11 +213,11 @@ def generate(tier, seed, ctx):
                 cls="full", orient=orient, pc=p != 0)
         # angular sub-ranges, the integrand depends on all three spherical coordinates: the FULL orientation cross
         # product of (r, cos theta, phi) - reversing any subset of the pairs multiplies the result by the product of signs
-        # (quick tier, the two expensive methods: the three patterns with exactly two reversed pairs + one other)
+        # (quick tier, the two expensive methods: the three patterns with exactly two reversed pairs)
         if thorough or m not in ("Trapezoidal", "Tanh-Sinh"):
             pats = list(range(8))
         else:
-            pats = [3, 5, 6, rng.choice([0, 1, 2, 4, 7])]
+            pats = [3, 5, 6]      # (the other five patterns are met with the four cheaper methods)
         for orient in pats:
             r1, r2 = _pair(rng, 0.2, 3.0, orient & 1)
             c1, c2 = _pair(rng, -0.95, 0.95, (orient >> 1) & 1)
@@ -361,6 +365,21 @@ def generate(tier, seed, ctx):
         g, h = (fs_, fm_) if sharp_ax == 0 else (fm_, fs_)
         add("c13.fam2 %s %d %s %s %s %s 1 %s %s" % (K, d, hx(x1), hx(x2), hx(y1), hx(y2), _famstr(g), _famstr(h)),
             cls="sharp-2d", orient=0, pc=d)
+    # ---- reversing the limits of one axis negates the result exactly (2-D, 3-D; the 1-D requests carry it themselves) ----
+    for m in METHODS:
+        slow = m in ("Trapezoidal", "Adaptive-Simpson")
+        for t in range(2 * rep):
+            (x1, x2), (y1, y2), (z1, z2) = _disjoint_pairs(rng, 3, rng.randrange(8))
+            if slow:    # quadratic/linear factors keep the nested cost small
+                fx, fy, fz = [(3, float(rng.randint(1, 3)), float(rng.randint(-2, 2)), 0.0 if m == "Trapezoidal" else 0.5) for _ in range(3)]
+                if t % 2 == 0:
+                    fy = _fam(rng, y1, y2)
+            else:
+                fx, fy, fz = _fam(rng, x1, x2), _fam(rng, y1, y2), _fam(rng, z1, z2)
+            add("c13.neg 2 %s 0 %s %s %s %s %s %s" % (m, hx(x1), hx(x2), hx(y1), hx(y2), _famstr(fx), _famstr(fy)), cls="neg2")
+            if not (slow and t % 2 == 0):
+                add("c13.neg 3 %s 0 %s %s %s %s %s %s %s %s %s" % (m, hx(x1), hx(x2), hx(y1), hx(y2), hx(z1), hx(z2),
+                                                                _famstr(fx), _famstr(fy), _famstr(fz)), cls="neg3")
     # ---- Monte-Carlo front ends --------------------------------------------------------------------
     for m in MC:
         for t in range(2 * rep):
@@ -448,11 +467,12 @@ def _ranges(vals, lims, slack=Fraction(0)):
     """recorded (lo,hi) of every argument inside its own limit pair"""
     bad = []
     for ax, (a, b) in enumerate(lims):
+        sl = slack[ax] if isinstance(slack, list) else slack
         lo, hi = vals[2 * ax], vals[2 * ax + 1]
         if math.isnan(lo) or math.isnan(hi):
             bad.append(ax); continue
         mn, mx = min(a, b), max(a, b)
-        if Fraction(lo) < mn - slack or Fraction(hi) > mx + slack:
+        if Fraction(lo) < mn - sl or Fraction(hi) > mx + sl:
             bad.append(ax)
     return bad
 
@@ -544,6 +564,18 @@ def _judged(meth, p, fams, pairs, ctx):
     return ok
 
 
+FLOOR_K = 256     # rounding floor K * 2^-53 * (conditioning scale): evaluating/summing the integrand in double
+
+
+def _tolerance(meth, rel, ref, sc):
+    """the method's accuracy: for the five 1e-9 methods RELATIVE TO |I| (the exact integral) plus the rounding floor of the
+    conditioning scale sc (integral of |f| / sum of |terms|); Trapezoidal and the Monte-Carlo front ends relative to sc
+    (see ASSUMPTIONS)"""
+    if meth == "Trapezoidal" or meth in MC:
+        return rel * sc
+    return rel * abs(ref) + FLOOR_K * EPS * sc
+
+
 def _fams(tk, pos, n):
     out = []
     for _ in range(n):
@@ -601,12 +633,36 @@ def compare_seq(rq, impl, model, ctx):
             sc *= Fraction(float(A))
         rel = REL.get(meth, REL_DEFAULT) * dim
         v = fl(sv)
-        if math.isnan(v) or math.isinf(v) or abs(Fraction(v) - ref) > rel * sc:
+        if math.isnan(v) or math.isinf(v) or abs(Fraction(v) - ref) > _tolerance(meth, rel, ref, sc):
             out.append(fail("prop", "1-D integral outside the method's accuracy" if dim == 1 else
                             "separable integrand: result is not the product of the 1-D integrals",
                             "%s in a sequence: %r vs %.17g (scale %.3g)" % (_member_str(c), v, float(ref), float(sc))))
         elif sc:
-            _worst(ctx, "seq %s err/tol" % meth, float(abs(Fraction(v) - ref) / (rel * sc)))
+            _worst(ctx, "seq %s err/tol" % meth, float(abs(Fraction(v) - ref) / _tolerance(meth, rel, ref, sc)))
+    return out
+
+
+def compare_neg(rq, impl, model, ctx):
+    """'reversing the limits negates the result', per axis, bit for bit (theorems int1_swap, nested_swap_inner,
+    nested_swap_axes_3D)"""
+    a = rq.split()[1:]
+    dim, meth = int(a[0]), a[1]
+    fs, both = std_outcome(rq, impl, model)
+    if tag(impl) == "timeout":
+        return [fail("prop", "integration does not terminate within the time limit", rq[:80])]
+    if not both:
+        return fs
+    v = [fl(t) for t in toks(impl)]
+    out = list(fs)
+    ctx["nontrivial"].add(("c13.neg", dim, meth))
+    for i in range(dim):
+        if not (v[1 + i] == -v[0]):
+            out.append(fail("prop", "reversing the limits does not negate the result exactly",
+                            "Integrate_%dD, %s: axis %d reversed gives %r, unreversed %r" % (dim, meth, i, v[1 + i], v[0])))
+    sgn = -1.0 if dim % 2 else 1.0
+    if not (v[1 + dim] == sgn * v[0]):
+        out.append(fail("prop", "reversing the limits does not negate the result exactly",
+                        "Integrate_%dD, %s: all axes reversed gives %r, unreversed %r" % (dim, meth, v[1 + dim], v[0])))
     return out
 
 
@@ -621,6 +677,8 @@ def compare(rq, impl, model, ctx):
         return []
     if op == "c13.seq":
         return compare_seq(rq, impl, model, ctx)
+    if op == "c13.neg":
+        return compare_neg(rq, impl, model, ctx)
     fs, both = std_outcome(rq, impl, model)
     if op.startswith("c13.outcome"):
         ctx["nontrivial"].add((op, a[0], tag(model)))
@@ -693,6 +751,9 @@ def compare(rq, impl, model, ctx):
         x1, x2 = fl(a[2]), fl(a[3])
         lims = [(Fraction(x1), Fraction(x2))]
         calls = int(ti[2]); rec = [fl(t) for t in ti[3:5]]
+        vr = fl(ti[5])
+        if not (vr == -v):       # bit for bit (the sign of a zero is immaterial)
+            out.append(fail("prop", "reversing the limits does not negate the result exactly", "%r vs reversed %r" % (v, vr)))
         if x1 == x2:
             if v != 0.0 or calls != 0:
                 out.append(fail("prop", "equal limits do not give zero", repr(v)))
@@ -711,8 +772,9 @@ def compare(rq, impl, model, ctx):
             I, A, S = _fam_ref(f, x1, x2)
             ref = Fraction(float(I)) + Fraction(float(I - float(I))); sc = Fraction(float(A))
         d = abs(Fraction(v) - ref)
-        _worst(ctx, "1D %s err/tol" % m, float(d / (rel * sc)) if sc else 0.0)
-        if d > rel * sc:
+        tol1 = _tolerance(m, rel, ref, sc)
+        _worst(ctx, "1D %s err/tol" % m, float(d / tol1) if tol1 else 0.0)
+        if d > tol1:
             out.append(fail("prop", "1-D integral outside the method's accuracy", "%s: %r vs %.17g (scale %.3g)" % (m, v, float(ref), float(sc))))
         return out
     dim = 2 if op in ("c13.int2", "c13.fam2") else 3
@@ -724,9 +786,10 @@ def compare(rq, impl, model, ctx):
         if fl(ti[2]) != 0.0:
             out.append(fail("prop", "spherical overload: integrand received a vector that is not 3-dimensional", ""))
         # norm = r, cos(polar angle) = cos_theta, azimuth = phi: each inside its own pair (to rounding)
-        slack = Fraction(1, 10 ** 12)
         full = md.get("cls") == "full" or (L[4] == 0.0 and L[5] > 6.28)
         chk = lims[:2] if full else lims
+        # rounding only: 8 * 2^-53 relative to the magnitude of the quantity (norm ~ r, |cos theta| <= 1, |phi|)
+        slack = [8 * EPS * max(abs(lo_), abs(hi_), 1) for lo_, hi_ in chk]
         bad = _ranges(rec, chk, slack)
         if bad:
             out.append(fail("prop", "spherical overload: norm/polar angle/azimuth of the vectors are not the integration variables",
@@ -748,7 +811,7 @@ def compare(rq, impl, model, ctx):
             if md.get("cls") == "full" and not mc:
                 # 4 pi * radial integral (model: 2 * (phi2 - phi1) * radial with phi2 - phi1 = the double 2 pi)
                 rad = _exact([(c, i + 2, 0, 0) for c, i, j, k in ts], lims[:1])
-                if abs(Fraction(v) - 4 * Fraction(math.pi) * rad) > rel * sc:
+                if abs(Fraction(v) - 4 * Fraction(math.pi) * rad) > _tolerance(m, rel, ex, sc):
                     out.append(fail("prop", "full sphere: result is not 4 pi times the radial integral of r^2 f", "%r" % v))
         else:
             ex = _exact(ts, lims); sc = _scale(ts, lims)
@@ -765,8 +828,9 @@ def compare(rq, impl, model, ctx):
             sc *= Fraction(float(A))
         rel = rel * dim
     d = abs(Fraction(v) - ref)
-    _worst(ctx, "%dD %s %s err/tol" % (dim, m, op[4:]), float(d / (rel * sc)) if sc else 0.0)
-    if d > rel * sc:
+    toln = _tolerance(m, rel, ref, sc)
+    _worst(ctx, "%dD %s %s err/tol" % (dim, m, op[4:]), float(d / toln) if toln else 0.0)
+    if d > toln:
         clause = ("Monte-Carlo front end: result is not the integral over the box of the given limits" if mc else
                   "spherical overload: result is not the integral of r^2 f over the shell segment" if op == "c13.sph" else
                   "separable integrand: result is not the product of the 1-D integrals" if op.startswith("c13.fam") else
@@ -781,7 +845,7 @@ def oracle_only(rq, impl, ctx):
     op, a = tk[0], tk[1:]
     if op in ("c13.selftest", "c13.checklimits", "c13.findeps"):
         return []
-    if op in ("c13.default1", "c13.sphdefault", "c13.seq"):
+    if op in ("c13.default1", "c13.sphdefault", "c13.seq", "c13.neg"):
         model = "ok"
     elif op.startswith("c13.outcome"):
         nm = a[0]
